@@ -1,5 +1,6 @@
 //! owlverif: property-based testing / fuzzing harness for owlchess (see /verif/DESIGN.md)
 
+pub mod chainlib;
 pub mod common;
 pub mod conv;
 pub mod engine;
